@@ -1,6 +1,7 @@
 import Generated.C12Facts
 import Req.Props.C12
 import Req.Props.C12Paths
+import Req.Props.C12Resume
 /-!
 # C12 — bridging theorems over the regenerated selector / wiring tables
 
@@ -123,5 +124,17 @@ theorem tls_uniform_paths_builtin (dial : Bool) (accepts : VerifyCfg → ServerC
   have e2 := key q o' c' hq
   refine ⟨by simp only [verifyPart]; rw [e1, e2], ?_⟩
   exact congrArg VerifyCfg.certs (e1.trans e2.symm)
+
+/-! ## session resumption -/
+
+/-- No stack stores a session cache of its own into the configuration of a dial: a re-dial
+cannot resume a session established under earlier settings (a `ClientSessionCache` inside the
+user's own `tls.Config` is the user's setting). -/
+theorem no_library_session_cache : sessionCacheWrites = 0 := by decide
+
+/-- `redial_governed_by_current_settings` over the regenerated fact. -/
+theorem redial_governed_by_current_settings_generated (sess : Option Session) (v : VerifyCfg) (cert : ServerCert) :
+    acceptsRedial sessionCacheWrites sess v cert = acceptsStd v cert := by
+  rw [no_library_session_cache]; exact redial_governed_by_current_settings sess v cert
 
 end Bridge.C12
